@@ -15,7 +15,7 @@ ImplBreak == done => LET z == Z  T == Table(z) IN LoadOk(T) =>
     /\ b.cs = s.cs /\ z.types[b.ty].off = s.off /\ z.types[b.ty].dst = s.dst /\ z.types[b.ty].abbr = s.abbr
     /\ b.hint \in 0..Len(T)
 \* C02 / C10 / C14: MakeTime = Make whatever the hint (results compared after clamping to the range)
-ImplMake == done => LET z == Z  T == Table(z) IN (WellFormed(z) /\ LoadOk(T)) =>
+ImplMake == done => LET z == Z  T == Table(z) IN (Premise(z) /\ LoadOk(T)) =>
   \A hint \in Hints(T), cs \in CivWin :
     LET m == MakeTime(z, T, hint, cs)  s == Make(z, cs) IN
     /\ ClampRes(m.r) = [kind |-> s.kind, pre |-> s.pre, trans |-> s.trans, post |-> s.post]
